@@ -82,6 +82,7 @@ func ruleBrkSlide(w *World, r *Report) {
 		}
 		n++
 		key := "fn=" + fname(fn) + " store=updated"
+		deadBranch := false
 		isCounts := func(v ssa.Value) bool {
 			if fa, ok := v.(*ssa.FieldAddr); ok {
 				n, f, _, ok := fieldOf(fa)
@@ -105,9 +106,39 @@ func ruleBrkSlide(w *World, r *Report) {
 				bi, ok := c.Common().Value.(*ssa.Builtin)
 				return ok && bi.Name() == "len" && len(c.Call.Args) == 1 && dependsOn(c.Call.Args[0], isCounts)
 			}
-			return (isLenCounts(bo.X) && dependsOn(bo.Y, isInterval)) || (isLenCounts(bo.Y) && dependsOn(bo.X, isInterval))
+			if !((isLenCounts(bo.X) && dependsOn(bo.Y, isInterval)) || (isLenCounts(bo.Y) && dependsOn(bo.X, isInterval))) {
+				return false
+			}
+			// the shift was capped at the window length before (`if len(counts) < ticks { ticks = len(counts) }`: a phi
+			// one of whose edges is len(counts)): then `len(counts) < ticks` can never be true again, and the branch
+			// that stores `now` is dead — the comparison has to admit equality
+			shift := bo.Y
+			strictDead := bo.Op == token.LSS
+			if isLenCounts(bo.Y) {
+				shift = bo.X
+				strictDead = bo.Op == token.GTR
+			}
+			capped := dependsOn(shift, func(v ssa.Value) bool {
+				p, ok := v.(*ssa.Phi)
+				if !ok {
+					return false
+				}
+				for _, e := range p.Edges {
+					if isLenCounts(e) {
+						return true
+					}
+				}
+				return false
+			})
+			if capped && strictDead {
+				deadBranch = true
+				return false
+			}
+			return true
 		}) {
 			r.ok("BRK-SLIDE", key, w.PosOf(in), "a clock value that drops the remainder is stored only under a test of the shift against the window length (everything has aged out)")
+		} else if deadBranch {
+			r.violation("BRK-SLIDE", key, w.PosOf(in), "the branch that advances the clock to `now` when the whole window has aged out tests the window length against a shift that was capped at that length with a strict comparison: it can never be taken, so after an idle period the clock stays behind and every one of the next calls wipes the window again (limit + idle/interval calls are admitted in one burst)")
 		} else if controlDependsOn(fn, in, isInterval) {
 			r.violation("BRK-SLIDE", key, w.PosOf(in), "slide stores a clock value that drops the sub-tick remainder although part of the window is still occupied (not under a test against the window length): every shift loses up to one tick, and a full breaker polled steadily needs up to twice the interval to admit again")
 		} else {
